@@ -38,19 +38,19 @@ func (f *faultCtl) tick(kind string) bool {
 }
 func (f *faultCtl) compare(a, b interface{}) (int, error) {
 	if f.tick("cmp") {
-		return 0, errInjected
+		return 0, injectedErr(fmt.Sprint("cmp", f.hit))
 	}
 	return f.base(a, b)
 }
 func (f *faultCtl) marshal(v interface{}) ([]byte, error) {
 	if f.tick("marshal") {
-		return nil, errInjected
+		return nil, injectedErr(fmt.Sprint("marshal", f.hit))
 	}
 	return json.Marshal(v)
 }
 func (f *faultCtl) unmarshal(b []byte, v interface{}) error {
 	if f.tick("unmarshal") {
-		return errInjected
+		return injectedErr(fmt.Sprint("unmarshal", f.hit))
 	}
 	return json.Unmarshal(b, v)
 }
